@@ -351,6 +351,7 @@ func runSearch(g *Gen, n int, stats map[string]interface{}) {
 	evals := 0
 	var history []string
 	evals += searchCorpus(w, found)
+	evals += searchUnstake(w, found)
 	for evals < n {
 		w.univ = universe()
 		w.Reset(true)
